@@ -133,10 +133,11 @@ func (r *fileImpl) Exec(h *vh.H, op string) string {
 		if text2, err2, pan2 := printGuard(re); pan2 == nil && err2 == nil {
 			if text2 == text {
 				fix = "same"
+				h.Count("file.second-print-same")
 			} else {
-				fix = "differs"
+				fix = "differs:" + vh.Hex([]byte(text2))
+				h.Count("file.second-print-differs")
 			}
-			h.Count("file.second-print-" + fix)
 		}
 	} else {
 		h.Count("file.reread-error")
